@@ -1,4 +1,220 @@
-// harness ops for macros (filled in when the module is ported)
-pub fn handle(_op: &str, _args: &[&str], _text: &str) -> Option<String> {
-    None
+// harness ops for macros.rs: the real MacroProg objects, queried through the GetInstr trait.
+//
+//   mq   <states> <colors> <spec> <slots> | prog
+//   mq2  <states> <colors> <spec> <slotsA> <slotsB> | prog
+//   mrun <states> <colors> <spec> <n> | prog
+//
+//   spec  = `kind:cells(,kind:cells)?`, innermost first, kind = block | back
+//   slots = `s,c;s,c;...` or `-` for none
+use crate::instrs::{CompProg, GetInstr, Instr, Params, Parse as _, Slot};
+use crate::macros::{make_backsymbol_macro, make_block_macro};
+use crate::tape::BasicTape;
+
+#[derive(Clone, Copy, PartialEq, Eq)]
+enum Kind {
+    Block,
+    Back,
+}
+
+fn parse_spec(s: &str) -> Option<Vec<(Kind, usize)>> {
+    s.split(',')
+        .map(|lv| {
+            let (k, n) = lv.split_once(':')?;
+            let n: usize = n.parse().ok()?;
+            match k {
+                "block" => Some((Kind::Block, n)),
+                "back" => Some((Kind::Back, n)),
+                _ => None,
+            }
+        })
+        .collect()
+}
+
+fn parse_slots(s: &str) -> Option<Vec<Slot>> {
+    if s == "-" || s.is_empty() {
+        return Some(vec![]);
+    }
+    s.split(';')
+        .map(|p| {
+            let (a, b) = p.split_once(',')?;
+            Some((a.parse().ok()?, b.parse().ok()?))
+        })
+        .collect()
+}
+
+fn show_answer(a: Option<Instr>) -> String {
+    match a {
+        None => "none".to_owned(),
+        Some((pr, sh, tr)) => format!("{pr},{},{tr}", u8::from(sh)),
+    }
+}
+
+fn show_answers(l: &[Option<Instr>]) -> String {
+    l.iter().map(|a| show_answer(*a)).collect::<Vec<_>>().join(";")
+}
+
+fn answers<P: GetInstr>(p: &P, slots: &[Slot]) -> String {
+    let out: Vec<Option<Instr>> =
+        slots.iter().map(|s| p.get_instr(s)).collect();
+    show_answers(&out)
+}
+
+fn answers2<P: GetInstr, Q: GetInstr>(
+    a: &P,
+    b: &Q,
+    sa: &[Slot],
+    sb: &[Slot],
+) -> String {
+    let mut oa = vec![];
+    let mut ob = vec![];
+    for i in 0..sa.len().max(sb.len()) {
+        if let Some(s) = sa.get(i) {
+            oa.push(a.get_instr(s));
+        }
+        if let Some(s) = sb.get(i) {
+            ob.push(b.get_instr(s));
+        }
+    }
+    format!("{} # {}", show_answers(&oa), show_answers(&ob))
+}
+
+// run_for_infrul (machine.rs) minus the prover, with the step count of run_quick_machine
+fn mrun<P: GetInstr>(comp: &P, n: u64) -> String {
+    let mut tape = BasicTape::init(0);
+    let mut state = 0;
+    let mut steps: u64 = 0;
+    let mut trace: Vec<String> = vec![];
+    let mut stop: Option<String> = None;
+
+    for _cycle in 0..n {
+        trace.push(format!("{state};{tape};{steps}"));
+
+        let slot = (state, tape.scan);
+
+        let Some((color, shift, next_state)) = comp.get_instr(&slot)
+        else {
+            stop = Some(format!("undfnd({},{})", slot.0, slot.1));
+            break;
+        };
+
+        let same = state == next_state;
+
+        if same && tape.at_edge(shift) {
+            stop = Some("spnout".to_owned());
+            break;
+        }
+
+        let stepped = tape.step(shift, color, same);
+
+        steps += stepped;
+
+        state = next_state;
+    }
+
+    let stop = match stop {
+        Some(s) => s,
+        None => {
+            trace.push(format!("{state};{tape};{steps}"));
+            "limit".to_owned()
+        },
+    };
+
+    format!("{} => {stop}", trace.join("/"))
+}
+
+// Build two fresh objects `$a`, `$b` of the chain `$spec` over `$comp` and evaluate `$body`.
+macro_rules! with_chain {
+    ($comp:expr, $params:expr, $spec:expr, $a:ident, $b:ident, $body:expr) => {{
+        let comp: &CompProg = $comp;
+        let params: Params = $params;
+        match $spec.as_slice() {
+            [(Kind::Block, k)] => {
+                let $a = make_block_macro(comp, params, *k);
+                let $b = make_block_macro(comp, params, *k);
+                Some($body)
+            },
+            [(Kind::Back, k)] => {
+                let $a = make_backsymbol_macro(comp, params, *k);
+                let $b = make_backsymbol_macro(comp, params, *k);
+                Some($body)
+            },
+            [(Kind::Block, k1), (Kind::Block, k2)] => {
+                let ia = make_block_macro(comp, params, *k1);
+                let ib = make_block_macro(comp, params, *k1);
+                let $a = make_block_macro(&ia, params, *k2);
+                let $b = make_block_macro(&ib, params, *k2);
+                Some($body)
+            },
+            [(Kind::Block, k1), (Kind::Back, k2)] => {
+                let ia = make_block_macro(comp, params, *k1);
+                let ib = make_block_macro(comp, params, *k1);
+                let $a = make_backsymbol_macro(&ia, params, *k2);
+                let $b = make_backsymbol_macro(&ib, params, *k2);
+                Some($body)
+            },
+            [(Kind::Back, k1), (Kind::Block, k2)] => {
+                let ia = make_backsymbol_macro(comp, params, *k1);
+                let ib = make_backsymbol_macro(comp, params, *k1);
+                let $a = make_block_macro(&ia, params, *k2);
+                let $b = make_block_macro(&ib, params, *k2);
+                Some($body)
+            },
+            [(Kind::Back, k1), (Kind::Back, k2)] => {
+                let ia = make_backsymbol_macro(comp, params, *k1);
+                let ib = make_backsymbol_macro(comp, params, *k1);
+                let $a = make_backsymbol_macro(&ia, params, *k2);
+                let $b = make_backsymbol_macro(&ib, params, *k2);
+                Some($body)
+            },
+            _ => None,
+        }
+    }};
+}
+
+const BAD: &str = "BAD-ARGS";
+
+pub fn handle(op: &str, args: &[&str], text: &str) -> Option<String> {
+    match (op, args) {
+        ("mq", [st, co, spec, slots]) => {
+            let comp = CompProg::from_str(text);
+            let (Ok(st), Ok(co), Some(spec), Some(slots)) = (
+                st.parse::<u64>(),
+                co.parse::<u64>(),
+                parse_spec(spec),
+                parse_slots(slots),
+            ) else {
+                return Some(BAD.to_owned());
+            };
+            let r = with_chain!(&comp, (st, co), spec, a, _b, answers(&a, &slots));
+            Some(r.unwrap_or_else(|| BAD.to_owned()))
+        },
+        ("mq2", [st, co, spec, sa, sb]) => {
+            let comp = CompProg::from_str(text);
+            let (Ok(st), Ok(co), Some(spec), Some(sa), Some(sb)) = (
+                st.parse::<u64>(),
+                co.parse::<u64>(),
+                parse_spec(spec),
+                parse_slots(sa),
+                parse_slots(sb),
+            ) else {
+                return Some(BAD.to_owned());
+            };
+            let r = with_chain!(&comp, (st, co), spec, a, b, answers2(&a, &b, &sa, &sb));
+            Some(r.unwrap_or_else(|| BAD.to_owned()))
+        },
+        ("mrun", [st, co, spec, n]) => {
+            let comp = CompProg::from_str(text);
+            let (Ok(st), Ok(co), Some(spec), Ok(n)) = (
+                st.parse::<u64>(),
+                co.parse::<u64>(),
+                parse_spec(spec),
+                n.parse::<u64>(),
+            ) else {
+                return Some(BAD.to_owned());
+            };
+            let r = with_chain!(&comp, (st, co), spec, a, _b, mrun(&a, n));
+            Some(r.unwrap_or_else(|| BAD.to_owned()))
+        },
+        _ => None,
+    }
 }
